@@ -14,7 +14,7 @@ Public entry points
     check_selection(chk, d, seed, n)                  seeded generator of real UFL forms through the REAL
                                                       analyze_ufl_objects + compute_ir vs the model; `d` is an open
                                                       `lean.Driver("driver_quadsel")`; ends with check_regressions
-    check_regressions(chk)                            the forms of the repaired defects (c4a6950, 605b08f) compiled and
+    check_regressions(chk)                            the forms of the repaired defects (c4a6950, 605b08f, 556c39a) compiled and
                                                       compared numerically with the oracle on every local entity
     python -m harness.quadsel_checks                  stand-alone runner (never writes evidence files)
 
@@ -67,9 +67,10 @@ QUADSEL_THEOREMS = [
     "Ffcx.QuadSel.regression_shared_cell_type", "Ffcx.QuadSel.regression_vertex_scheme_on_vertex_integral",
     "Ffcx.QuadSel.rule_lives_on_entity", "Ffcx.QuadSel.rule_lives_on_entity_prism",
     "Ffcx.QuadSel.grouping_partition", "Ffcx.QuadSel.grouping_same_iff", "Ffcx.QuadSel.grouping_perm", "Ffcx.QuadSel.summed_sum",
-    "Ffcx.QuadSel.summed_rule_is_first",
+    "Ffcx.QuadSel.summed_tags", "Ffcx.QuadSel.summed_rule_tensor_iff_all", "Ffcx.QuadSel.tensor_flag_order_independent",
+    "Ffcx.QuadSel.regression_merged_tensor_flag",
     "Ffcx.QuadSel.selection_independent_of_order", "Ffcx.QuadSel.selection_perm", "Ffcx.QuadSel.selection_perm_error",
-    "Ffcx.QuadSel.tensor_flag_order_counterexample", "Ffcx.QuadSel.rejects_vertex_discontinuous", "Ffcx.QuadSel.rejections",
+    "Ffcx.QuadSel.rejects_vertex_discontinuous", "Ffcx.QuadSel.rejections",
 ]
 
 CELLS = ["interval", "triangle", "quadrilateral", "tetrahedron", "hexahedron", "prism"]
@@ -957,7 +958,7 @@ def check_tables(chk, d):
 
 
 def regression_entries(tier="quick"):
-    """the two repaired defects as compiled forms: c4a6950 (a `vertex`-scheme facet integral AFTER a default-scheme one in UFL's
+    """the repaired defects as compiled forms (entry, options): c4a6950 (a `vertex`-scheme facet integral AFTER a default-scheme one in UFL's
     order, exterior and interior facets) and 605b08f (`dP(scheme="vertex")`)."""
     from ufl import Coefficient, TestFunction, dP, dS, ds
 
@@ -974,7 +975,21 @@ def regression_entries(tier="quick"):
                 if kind == "ifacet":
                     return [f("+") * v("-") * dS(degree=2) + f("+") * f("+") * v("-") * dS(degree=1, scheme="vertex")]
                 return [f * v * dP(scheme="vertex") + f * f * v * dP(degree=2)]
-            out.append((kind, corpus.Entry(f"quadsel_regression_{kind}_{cell}", b, tags=("c11",))))
+            out.append((kind, corpus.Entry(f"quadsel_regression_{kind}_{cell}", b, tags=("c11",)), {}))
+    # 556c39a: a factorising and a non-factorising integrand with identical points, in both orders UFL can list them,
+    # with and without the option
+    for cell in ["quadrilateral"] + (["hexahedron"] if tier != "quick" else []):
+        for swap in (False, True):
+            def b(cell=cell, swap=swap):
+                spec = {"cell": cell, "tp": True, "space": ["P", 2]}
+                m, V, W, D, S = _spaces(spec)
+                v, f, g = TestFunction(V), Coefficient(W), Coefficient(S)
+                p, q = (2, 1) if swap else (1, 2)
+                from ufl import dx
+                return [f ** p * v * dx(degree=4) + g * f ** q * v * dx(degree=4, scheme="default")]
+            for sf in (True, False):
+                out.append(("tensor", corpus.Entry(f"quadsel_regression_tpmix_{cell}_{int(swap)}_sf{int(sf)}", b, tags=("c11",)),
+                            {"sum_factorization": sf}))
     return out
 
 
@@ -983,12 +998,14 @@ def check_regressions(chk):
     integral's own rule on its own integration entity) for every local entity."""
     from . import numeric
     ents = regression_entries(chk.tier)
-    res = cjit.parallel_map(lambda i: numeric.compare_entry(ents[i][1], {}, seed=chk.seed * 13 + i, reps=1, all_entities=True), list(range(len(ents))))
+    res = cjit.parallel_map(lambda i: numeric.compare_entry(ents[i][1], dict(ents[i][2]), seed=chk.seed * 13 + i, reps=1, all_entities=True),
+                            list(range(len(ents))))
     for i, (st, r) in sorted(res.items()):
-        kind, e = ents[i]
+        kind, e, _ = ents[i]
         key = {"facet": "c11:selection:depends-on-other-integrals:exterior_facet:vertex-scheme",
                "ifacet": "c11:selection:depends-on-other-integrals:interior_facet:vertex-scheme",
-               "vertex": "c11:selection:not-honoured:vertex:vertex-scheme"}[kind]
+               "vertex": "c11:selection:not-honoured:vertex:vertex-scheme",
+               "tensor": "c11:selection:tensor-factors-from-other-integral:cell"}[kind]
         if st != "ok" or "error" in r:
             chk.violation(key, f"regression form {e.name} does not compile / run: {str(r if st != 'ok' else r['error'])[:200]}", {"entry": e.name})
             continue
